@@ -845,3 +845,17 @@ def euclid_contract(ctx, rule, body, g):
                     badx = "the loop %s when a' = %d" % ("is left" if all(vals) else "continues", v)
     ctx.ob(rule, body.name, "exit", "ok" if nx >= 1 and not badx else "violation",
            "the loop is left exactly when a' == 0" if nx >= 1 and not badx else (badx or "no loop exit found"))
+
+
+def expand_single_defs(body, term, g, keep=(), depth=0):
+    """replace helper locals that have exactly one definition by (the normalised origin of) that definition; `keep` are left alone"""
+    def f(x):
+        if x[0] == "local" and x not in keep and depth < 6:
+            ty = body.local_ty(x[1])
+            if any(w in ty for w in ("Iter<", "IntoIter", "ops::Range", "RangeInclusive", "iter::")):
+                return None          # iterator state: the facts speak about the local itself
+            ds = body.all_defs_origins(x[1])
+            if len(ds) == 1:
+                return expand_single_defs(body, norm(ds[0][1], g), g, keep, depth + 1)
+        return None
+    return map_term(term, f)
